@@ -36,6 +36,7 @@ type C02Reply struct {
 	Malform  string `json:"malform,omitempty"`
 	MustFail bool   `json:"must_fail,omitempty"`
 	Risky    bool   `json:"risky,omitempty"` // payload carries a line consisting of "##"
+	Late     bool   `json:"late,omitempty"`  // the server sends it just after the call's timeout
 }
 
 var c02Text = []string{"é", "日本語", "€", "#", "#12", "\n#5\n", "12345", "\n", " ", "<x/>", "abc", "0", "9#", "#\n", "data", "ünï", "😀", "&amp;", "]]"}
@@ -197,6 +198,14 @@ func genC02(seed uint64, run int, tier string) Scenario {
 	}
 	sc.Ops = append(sc.Ops, NCOp{Kind: "close"})
 	sc.fitTimeouts()
+	if sc.Net.JoinMsgs && n >= 2 && r.IntN(2) == 0 {
+		// one reply comes just after its call has given up, back to back with the next reply: a
+		// read may then carry the end of one message and the beginning of the next
+		i := r.IntN(n - 1)
+		sc.Server.Replies[i].Mode = "late"
+		sc.Server.Replies[i].DelayUS = sc.TimeoutOpsUS + sc.ReadDelayUS*int64(between(r, 0, 4))
+		sc.Refs[i].Late = true
+	}
 	// the raw-bytes leg: frames handed straight to the public decoder
 	nd := 30
 	if tier == "thorough" {
@@ -393,6 +402,11 @@ func runC02(env *Env, s Scenario) {
 			if ok, at := coveredBy(rec.Result, srcBytes); !ok {
 				env.Fail("result-has-bytes-not-sent", ref.Malform, "reply %d (fault %q): Result contains bytes the server never sent at offset %d: %q; frame=%q", rec.ReqIndex, ref.Malform, at, firstN(rec.Result[at:], 40), firstN(srcBytes, 300))
 			}
+
+			continue
+		}
+		if rec.Err != nil && ref.Late && rec.Class == "timeout" {
+			env.Probe("late-reply-call-timed-out")
 
 			continue
 		}
